@@ -366,6 +366,26 @@ def match(real, line, tol=TOL):
     return False, "unknown-tag " + tag
 
 
+def perm_ok(real, spec_line, seq):
+    """get_deltaMax(True): value == delta-max, permutant a rearrangement of `seq` whose EXACT delta equals delta-max
+    (float ties between mirror-image candidates may pick another maximiser than the model's first one)"""
+    toks = spec_line.split(" ")
+    if real[0] != "perm" or toks[0] != "perm":
+        return False, "get_deltaMax(True) -> %r" % (real,)
+    dm = parse_rat(toks[1])
+    if not close(real[1], dm):
+        return False, "dmax value %r vs spec %s" % (real[1], toks[1])
+    perm = real[2]
+    if not isinstance(perm, str) or sorted(perm) != sorted(seq):
+        return False, "permutant %r is not a rearrangement of the input %s" % (perm, seq)
+    model_perm = toks[3] if len(toks) > 3 else seq
+    if perm != model_perm:
+        d = run_driver(["q delta " + perm], "spec")[0]
+        if parse_rat(d.split(" ")[1]) != dm:
+            return False, "permutant %s has delta %s != delta-max %s" % (perm, d, toks[1])
+    return True, ""
+
+
 # ----------------------------------------------------------------------------------------------
 # real-code evaluation in worker processes
 # ----------------------------------------------------------------------------------------------
